@@ -4,7 +4,7 @@
     returns or breaks could leave a trace (no if-flag stack: [machine] has the fields m_pc, m_scopes, m_loops,
     m_loop_base, m_ret, m_heap, m_out, m_world, m_collections and nothing else). *)
 From Pakhi Require Import Base Float64 Syntax Tables Lexer Interp.
-From Pakhi.Proofs Require Import Assoc Scope.
+From Pakhi.Proofs Require Import Assoc Scope Unfold.
 From Coq Require Import Lia.
 Local Open Scope nat_scope.
 
@@ -104,14 +104,14 @@ Variable code : list fstmt.
 (* a true condition enters its block; nothing but the evaluation of the condition happened *)
 Theorem if_true fuel m c p m1 : stmt_at code (m_pc m) = Some (FIf c p) ->
   eval code fuel c m = Ok (VBool true, m1) -> interp code (S fuel) m = Ok (next m1).
-Proof. intros Hs He. simpl interp. rewrite Hs, He. reflexivity. Qed.
+Proof. intros Hs He. rewrite interp_S; unfold interp_step. rewrite Hs, He. reflexivity. Qed.
 
 (* a non-boolean condition is a runtime error located at the condition *)
 Theorem if_non_boolean fuel m c p v m1 : stmt_at code (m_pc m) = Some (FIf c p) ->
   eval code fuel c m = Ok (v, m1) -> (forall b, v <> VBool b) ->
   interp code (S fuel) m = fail_at ERuntime (expr_pos c) m1.
 Proof.
-  intros Hs He Hv. simpl interp. rewrite Hs, He. cbn [bind].
+  intros Hs He Hv. rewrite interp_S; unfold interp_step. rewrite Hs, He. cbn [bind].
   destruct v; try reflexivity. exfalso. eapply Hv. reflexivity.
 Qed.
 
@@ -124,7 +124,7 @@ Theorem if_false fuel m c p m1 pre bp body bq post :
   interp code (S fuel) m =
     Ok (set_pc m1 (match post with FElse _ :: _ => length pre + length body + 4 | _ => length pre + length body + 3 end)).
 Proof.
-  intros Hc Hb Hpc Hpc1 He. simpl interp.
+  intros Hc Hb Hpc Hpc1 He. rewrite interp_S; unfold interp_step.
   rewrite Hpc, (stmt_at_app code pre (FIf c p) _ Hc). rewrite He. cbn [bind]. rewrite Hpc1, Hpc.
   replace (S (length pre)) with (length (pre ++ [FIf c p])) by solve_len.
   rewrite (skip_block_lands_after code (pre ++ [FIf c p]) bp body bq post m1); [|solve_code Hc|exact Hb].
@@ -159,28 +159,13 @@ Qed.
 
 (* the else statement is reached only when a branch of its chain has run: every remaining branch is skipped without
    evaluating any further condition, and execution continues after the whole chain *)
-Section SkipChain.
-Variable m : machine.
-Fixpoint skip_chain (k : nat) (pc : nat) : outcome machine :=
-  match k with
-  | O => OutOfFuel
-  | S k' =>
-    let pc1 := match stmt_at code pc with Some (FIf _ _) => S pc | _ => pc end in
-    do pc2 <- skip_block_from code m pc1;
-    match stmt_at code pc2 with
-    | Some (FElse _) => skip_chain k' (S pc2)
-    | _ => Ok (set_pc m pc2)
-    end
-  end.
-End SkipChain.
-
 Lemma interp_else_unfold fuel m p : stmt_at code (m_pc m) = Some (FElse p) ->
-  interp code (S fuel) m = skip_chain m (S (length code)) (S (m_pc m)).
-Proof. intros Hs. cbn [interp]. rewrite Hs. reflexivity. Qed.
+  interp code (S fuel) m = skip_chain code m (S (length code)) (S (m_pc m)).
+Proof. intros Hs. rewrite interp_S; unfold interp_step. rewrite Hs. reflexivity. Qed.
 
 Lemma skip_chain_lands tail : chain_tail tail -> forall pre post m k,
   code = pre ++ tail ++ post -> not_else post -> length tail <= k ->
-  skip_chain m k (length pre) = Ok (set_pc m (length pre + length tail)).
+  skip_chain code m k (length pre) = Ok (set_pc m (length pre + length tail)).
 Proof.
   induction 1 as [bp body bq Hb|c p bp body bq Hb|bp body bq ep r Hb Hr IH|c p bp body bq ep r Hb Hr IH];
     intros pre post m k Hc Hne Hk; (destruct k as [|k]; [simpl in Hk; lia|]); cbn [skip_chain].
@@ -255,7 +240,7 @@ Theorem loop_enter_records_end fuel m pre lp bp body bq cp post :
     Ok (set_pc (set_loops m (mkLoop (length pre + 1) (length pre + length body + 4) (length (m_scopes m)) :: m_loops m))
                (length pre + 1)).
 Proof.
-  intros Hc Hb Hpc. cbn [interp]. rewrite Hpc, (stmt_at_app code pre (FLoop lp) _ Hc).
+  intros Hc Hb Hpc. rewrite interp_S; unfold interp_step. rewrite Hpc, (stmt_at_app code pre (FLoop lp) _ Hc).
   replace (S (length pre)) with (length (pre ++ [FLoop lp])) by solve_len.
   rewrite (skip_block_lands_after code (pre ++ [FLoop lp]) bp body bq (FContinue cp :: post) m); [|solve_code Hc|exact Hb].
   cbn [bind].
@@ -271,7 +256,7 @@ Theorem break_innermost fuel m p l ls :
   stmt_at code (m_pc m) = Some (FBreak p) -> m_loops m = l :: ls -> m_loop_base m < length (m_loops m) ->
   interp code (S fuel) m = Ok (set_pc (set_loops (set_scopes m (truncate (l_depth l) (m_scopes m))) ls) (l_end l)).
 Proof.
-  intros Hs Hl Hb. cbn [interp]. rewrite Hs.
+  intros Hs Hl Hb. rewrite interp_S; unfold interp_step. rewrite Hs.
   assert (E : (length (m_loops m) <=? m_loop_base m) = false) by (apply Nat.leb_gt; exact Hb).
   rewrite E, Hl. reflexivity.
 Qed.
@@ -281,7 +266,7 @@ Theorem continue_innermost fuel m p l ls :
   stmt_at code (m_pc m) = Some (FContinue p) -> m_loops m = l :: ls -> m_loop_base m < length (m_loops m) ->
   interp code (S fuel) m = Ok (set_pc (set_scopes m (truncate (l_depth l) (m_scopes m))) (l_start l)).
 Proof.
-  intros Hs Hl Hb. cbn [interp]. rewrite Hs.
+  intros Hs Hl Hb. rewrite interp_S; unfold interp_step. rewrite Hs.
   assert (E : (length (m_loops m) <=? m_loop_base m) = false) by (apply Nat.leb_gt; exact Hb).
   rewrite E, Hl. reflexivity.
 Qed.
@@ -293,11 +278,11 @@ Proof. apply truncate_app. Qed.
 (* break / continue with no enclosing loop in the current function is a located runtime error *)
 Theorem break_outside_loop fuel m p : stmt_at code (m_pc m) = Some (FBreak p) -> length (m_loops m) <= m_loop_base m ->
   interp code (S fuel) m = fail_here code ERuntime m.
-Proof. intros Hs Hb. cbn [interp]. rewrite Hs. apply Nat.leb_le in Hb. rewrite Hb. reflexivity. Qed.
+Proof. intros Hs Hb. rewrite interp_S; unfold interp_step. rewrite Hs. apply Nat.leb_le in Hb. rewrite Hb. reflexivity. Qed.
 
 Theorem continue_outside_loop fuel m p : stmt_at code (m_pc m) = Some (FContinue p) -> length (m_loops m) <= m_loop_base m ->
   interp code (S fuel) m = fail_here code ERuntime m.
-Proof. intros Hs Hb. cbn [interp]. rewrite Hs. apply Nat.leb_le in Hb. rewrite Hb. reflexivity. Qed.
+Proof. intros Hs Hb. rewrite interp_S; unfold interp_step. rewrite Hs. apply Nat.leb_le in Hb. rewrite Hb. reflexivity. Qed.
 End Loops.
 
 (** ** Calls *)
@@ -357,7 +342,7 @@ Theorem call_restores_heights fuel name np args p m v m' :
   length (m_loops m') <= length (m_loops m) /\
   (exists pre, exists m4, m_scopes m4 = pre ++ m_scopes m' /\ m_heap m' = m_heap m4 /\ m_out m' = m_out m4).
 Proof.
-  intros Hb H. simpl eval in H. rewrite Hb in H.
+  intros Hb H. rewrite eval_S in H. unfold eval_step in H. rewrite Hb in H.
   destruct (lookup_var name (m_scopes m)) as [fv|]; [|unfold rt_err, fail_here, unexpected_at in H; destruct (stmt_at code (m_pc m)); discriminate].
   cbn [bind] in H. destruct fv; try discriminate.
   destruct (bind_args (eval code fuel) params args [] m) as [[env m1]| | |]; try discriminate. cbn [bind] in H.
